@@ -30,6 +30,7 @@ def run(ctx):
     check_outbuf(ctx, prog)
     check_case(ctx, prog)
     check_count(ctx, prog)
+    check_nocase(ctx, prog)
     return __doc__.split('\n\n', 1)[1]
 
 
@@ -1550,3 +1551,80 @@ def interp_term_site(prog, g, call, si, ni, safe):
         if not probe['seen']:
             return None
     return 'ok', 'interpreted for argument arrays of 0, 1 and 3 elements: the converter meets a terminator inside the source it is handed'
+
+
+def check_nocase(ctx, prog):
+    """C08.nocase: case-insensitive equality coincides with equality of the lower-cased forms.  `toLowerCase()` and
+    `equalsNocase()` are interpreted (scansim; the enumerators as modelled records, the case tables read from their
+    initialisers) on one-character strings: every ASCII character and a sample of Latin-1, Latin Extended, Greek, Cyrillic and
+    the characters around the tables' limit, each paired with itself, its case partner, the character that differs in bit 5,
+    its successor and a few fixed characters.  equalsNocase(a, b) must be true exactly when the lower-cased forms are equal."""
+    import scansim
+    fe = fn1(prog, 'asl::String::equalsNocase')
+    fl = fn1(prog, 'asl::String::toLowerCase')
+    ctx.analysed(fe)
+    role = 'equalsNocase:equal exactly when the lower-cased forms are equal'
+
+    def enc(c):
+        return [b - 256 if b > 127 else b for b in chr(c).encode('utf-8')]
+
+    def lower(c):
+        by = enc(c)
+        bufs = {'T': by + [0]}
+        r = scansim.Run(prog, fl, bufs, call_ptrs={'str': ('P', 'T', 0)}, methods={'*': 'interp'}, mems={'_len': len(by)}, objects=True)
+        ret = r.run()
+        out = bufs[ret[1]]
+        return tuple(x & 255 for x in out[:out.index(0)])
+
+    def eqn(c1, c2):
+        b1, b2 = enc(c1), enc(c2)
+        bufs = {'T': b1 + [0]}
+        r = scansim.Run(prog, fe, bufs, call_ptrs={'str': ('P', 'T', 0)}, methods={'*': 'interp'}, mems={'_len': len(b1)}, objects=True)
+        pid = fe['params'][0]['id']
+        bufs[('O', pid)] = b2 + [0]
+        r.objlen[pid] = len(b2)
+        r.strobjs.add(pid)
+        return bool(r.run())
+    sample = list(range(1, 128))
+    extra = [0xc0, 0xc9, 0xd7, 0xdf, 0xe0, 0xe9, 0xf7, 0xff, 0x100, 0x101, 0x130, 0x131, 0x178, 0x17f, 0x391, 0x3a3, 0x3b1, 0x3c2, 0x3c3, 0x410, 0x42f, 0x430, 0x44f, 0x450, 0x531, 0x561, 1414, 1415, 1416, 0x20ac, 0x1f600]
+    if ctx.tier == 'thorough':
+        extra = sorted(set(extra + list(range(0x80, 0x250)) + list(range(0x370, 0x590))))
+    bad = und = None
+    runs = 0
+    try:
+        L = {}
+        for c in sample + extra:
+            L[c] = lower(c)
+            runs += 1
+        fixed = [0x40, 0x60, 0x5b, 0x7b, 0x41, 0x61]
+        for c1 in sample + extra:
+            low1 = bytes(L[c1]).decode('utf-8', 'replace')
+            partners = {c1, c1 ^ 0x20, c1 + 1}
+            if len(low1) == 1:
+                partners.add(ord(low1))
+            if c1 < 128:
+                partners |= set(fixed)
+            for c2 in sorted(partners):
+                if c2 < 1 or c2 > 0x10ffff or 0xd800 <= c2 <= 0xdfff:
+                    continue
+                if c2 not in L:
+                    L[c2] = lower(c2)
+                    runs += 1
+                got = eqn(c1, c2)
+                runs += 1
+                want = L[c1] == L[c2]
+                if got != want:
+                    bad = 'U+%04X %s U+%04X: equalsNocase says %s, the lower-cased forms are %s (%s / %s)' % (
+                        c1, 'vs', c2, 'equal' if got else 'different', 'equal' if want else 'different', ' '.join('%02x' % x for x in L[c1]), ' '.join('%02x' % x for x in L[c2]))
+                    break
+            if bad:
+                break
+    except scansim.OOB as o:
+        bad = 'out-of-bounds access while folding a one-character string: %s' % o
+    except (scansim.Unsupported, TypeError, KeyError, IndexError, ValueError) as u:
+        und = str(u)
+    ctx.evaluations += runs
+    if und:
+        ctx.undecided('C08.nocase', fe['pq'], role, fwhere(fe), 'outside the interpreted fragment: %s' % und)
+    else:
+        ctx.check(bad is None, 'C08.nocase', fe['pq'], role, fwhere(fe), 'interpreted for %d (character, character) pairs / foldings' % runs, bad or '')
